@@ -1,8 +1,8 @@
 #!/bin/bash
 # tools/verify_seed.sh <Cxx> <k> [patch override]: confirm a seeded change in a scratch worktree of /repo HEAD:
 #   demo passes on the clean tree, patch applies, full test suite still passes with it, demo fails with it.
-ID=$1; K=$2; SRC=/tmp/seed_out/$ID/$K; PATCH=${3:-$SRC/patch.diff}
-WT=/tmp/wt_verify_${ID}_$K; OUT=/tmp/seed_verify/${ID}_$K.json
+ID=$1; K=$2; SRC=${SEED_BASE:-/tmp/seed_out}/$ID/$K; PATCH=${3:-$SRC/patch.diff}
+WT=/tmp/wt_verify_${ID}_$K; OUT=/tmp/seed_verify/${ID}_$K${SEED_TAG}.json
 git -C /repo worktree remove --force $WT >/dev/null 2>&1; git -C /repo worktree add -q --detach $WT HEAD || exit 9
 cd $WT
 run_demo() { PYTHONPATH=$WT/src timeout 900 /venv/bin/python $SRC/demo.py > $1 2>&1; echo $?; }
